@@ -206,10 +206,65 @@ async fn scenario(q: usize, before_stall: bool, id: u64) -> Out {
             Err(_) => via_queued = Some("probe did not finish within 30 s".into()),
         }
     }
+    // … and not only for the one topic B: "a different topic" means any of them, however the server happens to group,
+    // hash or shard its topics. 270 further topics, each with a fresh subscriber + publisher, one round trip each.
+    let mut one_of_many: Option<String> = None;
+    if let (Ok(Ok(())), None) = (&res, &via_queued) {
+        let sweep = async {
+            let mut keep = vec![];
+            let mut k = 0u32;
+            for _ in 0..6 {
+                let conn = raw_connect(addr, &certs).await.map_err(|e| format!("INCONCLUSIVE connect: {e}"))?;
+                for _ in 0..45 {
+                    k += 1;
+                    let name = format!("/other{}x{}/topic-{}", id, k, (k * 7919) % 1000 + 100);
+                    let tn = TopicName::try_from(name.as_str()).map_err(|e| format!("INCONCLUSIVE topic name {name}: {e}"))?;
+                    let (mut sb, r) = conn.open(Frame::RegisterSubscriber(SubscriberPayload { topic: tn.clone(), retention_policy: 0, operations: vec![] }), Duration::from_secs(8)).await.map_err(|e| format!("topic {name} (#{k} of 270 other topics): opening a subscriber: {e}"))?;
+                    if r != Some(Frame::Ok) {
+                        return Err(format!("topic {name} (#{k} of 270 other topics): subscriber registration answered {:?}", r));
+                    }
+                    let (mut pb, r) = conn.open(Frame::RegisterPublisher(selium_protocol::PublisherPayload { topic: tn.clone(), retention_policy: 0, operations: vec![] }), Duration::from_secs(8)).await.map_err(|e| format!("topic {name} (#{k} of 270 other topics): opening a publisher: {e}"))?;
+                    if r != Some(Frame::Ok) {
+                        return Err(format!("topic {name} (#{k} of 270 other topics): publisher registration answered {:?}", r));
+                    }
+                    let mut through = false;
+                    for n in 0..16u8 {
+                        pb.send(Frame::Message(selium_protocol::MessagePayload { headers: None, message: bytes::Bytes::from(vec![b'M', n]) })).await.map_err(|e| format!("topic {name}: send: {e}"))?;
+                        if let Ok(Some(Ok(Frame::Message(m)))) = tokio::time::timeout(Duration::from_millis(250), sb.next()).await {
+                            if m.message.first() == Some(&b'M') {
+                                through = true;
+                                break;
+                            }
+                        }
+                    }
+                    if !through {
+                        return Err(format!("topic {name} (#{k} of 270 other topics tried): both registrations were answered Ok, but none of 16 messages reached the subscriber within 4 s", ));
+                    }
+                    keep.push((sb, pb));
+                }
+                std::mem::forget(conn);
+            }
+            Ok::<(), String>(())
+        };
+        match tokio::time::timeout(Duration::from_secs(150), sweep).await {
+            Ok(Ok(())) => {}
+            Ok(Err(e)) => one_of_many = Some(e),
+            Err(_) => one_of_many = Some("INCONCLUSIVE the sweep over 270 other topics did not finish within 150 s".into()),
+        }
+    }
     reader.abort();
     server.stop();
     drop(queued_streams);
     drop(extra_conns);
+    if let Some(e) = one_of_many {
+        if let Some(why) = e.strip_prefix("INCONCLUSIVE ") {
+            return Out::Inconclusive(why.to_string());
+        }
+        return Out::Violated(
+            "other-topic-blocked/one-of-many-topics".into(),
+            format!("with topic A stalled and {} registrations queued on it ({}), topic B worked, but not every other topic did: {}", q, if before_stall { "sent before the stall" } else { "sent after the stall" }, e),
+        );
+    }
     if let Some(e) = via_queued {
         return Out::Violated(
             "other-topic-blocked/through-queued-connection".into(),
@@ -662,7 +717,7 @@ pub fn run(rep: &mut StageReport, tier: &str, _seed: u64) {
         rep.evaluations += 1;
         // a fresh runtime per scenario: everything (server tasks, stalled peers) dies with it
         let rt = runtime(4);
-        let out = rt.block_on(async { tokio::time::timeout(Duration::from_secs(150), scenario(*q, *before, i as u64 + 1)).await });
+        let out = rt.block_on(async { tokio::time::timeout(Duration::from_secs(330), scenario(*q, *before, i as u64 + 1)).await });
         drop(rt);
         match out {
             Ok(Out::Held { b_roundtrip_ms, queued_ok }) => {
@@ -675,7 +730,7 @@ pub fn run(rep: &mut StageReport, tier: &str, _seed: u64) {
                 rep.violation(Violation { signature: format!("C17/server/{}", sig), detail, replay });
             }
             Ok(Out::Inconclusive(why)) => rep.inconclusive(&why),
-            Err(_) => rep.inconclusive("watchdog: scenario did not finish within 150 s"),
+            Err(_) => rep.inconclusive("watchdog: scenario did not finish within 330 s"),
         }
     }
     for k in 0..(if thorough { 5u64 } else { 1 }) {
